@@ -50,6 +50,9 @@ type C18Case struct {
 	ExtraHdr   string     `json:"extra_header,omitempty"`
 	Writes     []C18Write `json:"writes"`
 	HeadBefore bool       `json:"header_before_write"`
+	// After: the WAF has served another request before ("plain"), during which the temporary directory was emptied by
+	// something else ("tmpclean": a tmp cleaner; the predecessor's clean-up then meets a missing spill file)
+	After string `json:"after,omitempty"`
 }
 
 func genC18(t *rapid.T) *C18Case {
@@ -108,6 +111,7 @@ func genC18(t *rapid.T) *C18Case {
 			c.UseServer = true // net/http's own ReadFrom (sendfile) path exists only on a real connection
 		}
 	}
+	c.After = rapid.SampledFrom([]string{"", "", "", "plain", "tmpclean", "tmpclean"}).Draw(t, "after")
 	if c.Code == 0 && len(c.Writes) == 0 && rapid.Bool().Draw(t, "explicit200") {
 		// otherwise: a handler that returns without having produced anything (net/http answers 200 for it)
 		c.Code = 200
@@ -123,6 +127,9 @@ func (c *C18Case) conf() string {
 	}
 	if c.RespAccess {
 		sb.WriteString("SecResponseBodyAccess On\nSecResponseBodyMimeType text/plain\n")
+	}
+	if c.After == "tmpclean" {
+		sb.WriteString("SecRequestBodyInMemoryLimit 4\n")
 	}
 	fmt.Fprintf(&sb, "SecRequestBodyLimit %d\nSecRequestBodyLimitAction %s\nSecResponseBodyLimit %d\nSecResponseBodyLimitAction %s\n", c.ReqLimit, c.ReqAction, c.RespLimit, c.RespAction)
 	if c.DenyPhase > 0 {
@@ -157,6 +164,8 @@ type c18Result struct {
 	status         int
 	body           []byte
 	header         http.Header
+	// predSpillRemoved: the predecessor's spill file was removed while it was being served
+	predSpillRemoved bool
 }
 
 func (c *C18Case) run() (*c18Result, *Failure) {
@@ -166,6 +175,33 @@ func (c *C18Case) run() (*c18Result, *Failure) {
 		return nil, failf("configuration rejected: %v\n%s", err, c.conf())
 	}
 	defer closeWAF(w)
+	if c.After != "" {
+		// the predecessor: an unblocked request with a body and a buffered response, served by the same WAF
+		pred := txhttp.WrapHandler(w, http.HandlerFunc(func(rw http.ResponseWriter, r *http.Request) {
+			_, _ = io.ReadAll(r.Body)
+			if c.After == "tmpclean" {
+				if names, _ := filepath.Glob(filepath.Join(privateTmp, "body*")); len(names) > 0 {
+					for _, n := range names {
+						_ = os.Remove(n)
+					}
+					res.predSpillRemoved = true
+				}
+			}
+			rw.Header().Set("Content-Type", "text/plain")
+			_, _ = rw.Write([]byte("PREDECESSOR-RESPONSE"))
+		}))
+		if f := guard("middleware (predecessor)", func() {
+			n := c.ReqLimit - 1
+			if n > 24 {
+				n = 24
+			}
+			req := httptest.NewRequest("POST", "/pred?x=1", bytes.NewReader(patternBytes(n, 5)))
+			req.Header.Set("Content-Type", "application/x-www-form-urlencoded")
+			pred.ServeHTTP(httptest.NewRecorder(), req)
+		}); f != nil {
+			return nil, f
+		}
+	}
 	reqBody := patternBytes(c.BodyLen, 3)
 	handler := http.HandlerFunc(func(rw http.ResponseWriter, r *http.Request) {
 		res.handlerInvoked = true
@@ -312,6 +348,12 @@ func checkC18(c *C18Case) Result {
 		}
 		out.Fail = f
 		return out
+	}
+	if c.After != "" {
+		out.Labels = append(out.Labels, "after-another-request")
+	}
+	if r.predSpillRemoved {
+		out.Labels = append(out.Labels, "predecessor-spill-file-removed")
 	}
 	ctx := fmt.Sprintf("\ncase: %+v\nconfig:\n%shandler invoked=%v read=%d bytes wrote=%d bytes; client status=%d body=%d bytes %q", *c, c.conf(), r.handlerInvoked, len(r.handlerRead), len(r.handlerWrote), r.status, len(r.body), r.body)
 	denyStatus := c.DenyStatus
